@@ -51,11 +51,12 @@ var sAttrs = []sAttr{
 func sPrefix(k int) wPrefix { return wPrefix{IP: [4]byte{10, 20, byte(k), 0}, Len: 24 + k%9} }
 
 type sConnScript struct {
-	asn       uint32 // AS number the peer presents
-	as4       bool   // peer offers the 4-octet capability
-	dropInHS  bool   // close right after reading the session's OPEN
-	dropAfter int    // close after this many UPDATE messages (-1: never)
-	dropMid   bool   // ... after additionally reading half of the next message
+	asn       uint32        // AS number the peer presents
+	as4       bool          // peer offers the 4-octet capability
+	dropInHS  bool          // close right after reading the session's OPEN
+	dropAfter int           // close after this many UPDATE messages (-1: never)
+	dropMid   bool          // ... after additionally reading half of the next message
+	delayOpen time.Duration // wait this long before answering with our OPEN (slow / loaded peer)
 }
 
 type sPeer struct {
@@ -77,8 +78,11 @@ type sPeer struct {
 	sess                 *session
 	done                 bool
 	refused              int
-	capRand              *rand.Rand // used by serve() only: capability of unscripted connections
-	lastCap              int        // capability of the previous established connection: -1 none, 0 off, 1 on
+	wantHold             int          // hold time (s) the session's OPEN must carry: configured value, 90 for nil
+	conns                []*sPeerConn // every accepted connection
+	openSent             chan int     // id of a connection whose peer OPEN was just written
+	capRand              *rand.Rand   // used by serve() only: capability of unscripted connections
+	lastCap              int          // capability of the previous established connection: -1 none, 0 off, 1 on
 	flipOnOff, flipOffOn int
 	widthOK              int  // eBGP UPDATEs whose AS_PATH width matched the connection's capability
 	slow                 bool // pace accepts (special schedule: bounds the trace if the session reconnects in a tight loop)
@@ -135,6 +139,7 @@ func (p *sPeer) serve() {
 		p.mu.Lock()
 		p.nconn++
 		pc := &sPeerConn{id: p.nconn, c: c, table: map[int]int{}, arm: -1}
+		p.conns = append(p.conns, pc)
 		sc := p.def
 		if len(p.scripts) > 0 {
 			sc, p.scripts = p.scripts[0], p.scripts[1:]
@@ -177,9 +182,26 @@ func (p *sPeer) handle(pc *sPeerConn, sc sConnScript) {
 		p.mu.Lock()
 		p.fail("session-open-malformed", fmt.Sprintf("session sent %x: %v", om, derr))
 		p.mu.Unlock()
-	} else if a, _, _, _, fb, _, _ := wUnderstood(m.Open); a != p.myASN || !fb {
+	} else {
+		// the OPEN of a REAL session (NewSession -> connect -> sendOpen) must carry what was configured
+		a, hold, mp4, mp6, fb, onlyCaps, _ := wUnderstood(m.Open)
+		ncaps := 0
+		for _, pr := range m.Open.Params {
+			ncaps += len(pr.Caps)
+		}
+		want16 := uint16(p.myASN)
+		if p.myASN > 65535 {
+			want16 = 23456
+		}
 		p.mu.Lock()
-		p.fail("session-open-wrong-asn", fmt.Sprintf("session OPEN says asn %d as4 %v, configured %d", a, fb, p.myASN))
+		p.log(fmt.Sprintf("TOpen %d %d %d", pc.id, a, hold), fmt.Sprintf("c%d: session OPEN asn=%d hold=%d id=%v", pc.id, a, hold, m.Open.ID))
+		if a != p.myASN || !fb {
+			p.fail("session-open-wrong-asn", fmt.Sprintf("session OPEN says asn %d as4 %v, configured %d", a, fb, p.myASN))
+		}
+		if int(hold) != p.wantHold || m.Open.ASN != want16 || m.Open.ID != [4]byte{10, 0, 0, 1} || !mp4 || !mp6 || !onlyCaps || ncaps != 3 {
+			p.fail("session-open-not-as-configured", fmt.Sprintf("session OPEN %x: asn16=%d hold=%d id=%v mp4=%v mp6=%v as4=%v caps=%d; configured asn=%d hold=%d id=10.0.0.1, capabilities MP v4, MP v6, AS4",
+				om, m.Open.ASN, hold, m.Open.ID, mp4, mp6, fb, ncaps, p.myASN, p.wantHold))
+		}
 		p.mu.Unlock()
 	}
 	if sc.dropInHS {
@@ -199,8 +221,22 @@ func (p *sPeer) handle(pc *sPeerConn, sc sConnScript) {
 		caps = append(caps, vCap{65, []byte{byte(sc.asn >> 24), byte(sc.asn >> 16), byte(sc.asn >> 8), byte(sc.asn)}})
 	}
 	o.Params = []vParam{{Type: 2, Caps: caps}}
+	if sc.delayOpen > 0 {
+		time.Sleep(sc.delayOpen)
+	}
+	p.mu.Lock()
+	late := p.closedAt >= 0 // Close() had already returned when we answer: nothing may come back
+	p.log(fmt.Sprintf("TOpenSent %d", pc.id), fmt.Sprintf("c%d: peer sends its OPEN (delay %v)", pc.id, sc.delayOpen))
+	p.mu.Unlock()
 	if _, err := c.Write(wSerOpen(o, 0)); err != nil {
+		p.mu.Lock()
+		pc.gone = true
+		p.mu.Unlock()
 		return
+	}
+	select {
+	case p.openSent <- pc.id:
+	default:
 	}
 	// the session's verdict: KEEPALIVE = accepted, close = refused
 	km, err := sReadMsg(c)
@@ -224,6 +260,9 @@ func (p *sPeer) handle(pc *sPeerConn, sc sConnScript) {
 		p.lastCap = now
 	} else {
 		pc.gone = true
+	}
+	if acc && late {
+		p.fail("session-message-after-close", fmt.Sprintf("c%d: Close() had returned before the peer sent its OPEN, yet the session answered it with KEEPALIVE", pc.id))
 	}
 	wrong := sc.asn != map[bool]uint32{true: p.myASN, false: sPeerASN}[p.ibgp]
 	if wrong && !acc {
@@ -294,6 +333,10 @@ func (p *sPeer) handle(pc *sPeerConn, sc sConnScript) {
 			p.fail("session-message-malformed", fmt.Sprintf("c%d: %x: %v", pc.id, mb, derr))
 		case m.Type == 4:
 			p.kalives++
+			p.log(fmt.Sprintf("TKeepalive %d 90", pc.id), fmt.Sprintf("c%d: KEEPALIVE", pc.id))
+			if p.wantHold == 0 {
+				p.fail("session-keepalive-with-hold-time-0", fmt.Sprintf("c%d: hold time 0 was configured (no keepalive timer), a KEEPALIVE arrived after the accepting one", pc.id))
+			}
 		case m.Type == 2:
 			p.msgs++
 			u := m.Update
@@ -484,7 +527,7 @@ func sRunSchedule(t *testing.T, out *vOut, id int, r *rand.Rand, special string)
 	if ibgp {
 		peerASN = myASN
 	}
-	p := &sPeer{t: t, ln: ln, myASN: myASN, ibgp: ibgp, closedAt: -1, slow: special == "asn65536", lastCap: -1,
+	p := &sPeer{t: t, ln: ln, myASN: myASN, ibgp: ibgp, closedAt: -1, slow: special == "asn65536", lastCap: -1, openSent: make(chan int, 64),
 		def: sConnScript{asn: peerASN, as4: as4, dropAfter: -1}}
 	if special == "" && myASN <= 65535 {
 		p.capRand = rand.New(rand.NewSource(r.Int63()))
@@ -498,6 +541,13 @@ func sRunSchedule(t *testing.T, out *vOut, id int, r *rand.Rand, special string)
 	if special == "close-in-backoff" {
 		p.def.asn = peerASN + 1 // every handshake is refused: the session sits in its backoff sleep
 	}
+	closeHS := strings.HasPrefix(special, "close-in-handshake:") // :accepted | :open-sent | :after-flap
+	switch special {
+	case "close-in-handshake:accepted":
+		p.def.delayOpen = 120 * time.Millisecond
+	case "close-in-handshake:open-sent":
+		p.def.delayOpen = 40 * time.Millisecond
+	}
 	// scripts for the first connections
 	nscripts := r.Intn(4)
 	wrongUsed := false
@@ -505,6 +555,10 @@ func sRunSchedule(t *testing.T, out *vOut, id int, r *rand.Rand, special string)
 		sc := p.def
 		if p.capRand != nil {
 			sc.as4 = r.Intn(2) == 0
+		}
+		if r.Intn(4) == 0 {
+			sc.delayOpen = time.Duration(2+r.Intn(30)) * time.Millisecond
+			out.Stat("sess:peer-delays-open", 1)
 		}
 		switch r.Intn(6) {
 		case 0:
@@ -531,13 +585,29 @@ func sRunSchedule(t *testing.T, out *vOut, id int, r *rand.Rand, special string)
 	go p.serve()
 
 	port := ln.Addr().(*net.TCPAddr).Port
-	ht := 90 * time.Second
-	if r.Intn(4) == 0 {
-		ht = 3 * time.Second // keepalives every second
+	// configured hold time: nil (-> 90 s default), 0 (legal: no keepalives), 3 s, 30 s, 90 s, odd values
+	holds := []time.Duration{-1, 0, 3 * time.Second, 30 * time.Second, 90 * time.Second, 7 * time.Second, 4500 * time.Millisecond, 65535 * time.Second}
+	ht := holds[r.Intn(len(holds))]
+	switch special {
+	case "hold:0":
+		ht = 0
+	case "hold:nil":
+		ht = -1
 	}
+	var htp *time.Duration
+	holdCoq := cNone
+	holdName := "nil"
+	p.wantHold = 90
+	if ht >= 0 {
+		htp = &ht
+		p.wantHold = int(ht / time.Second)
+		holdCoq = cSome(cNi(p.wantHold))
+		holdName = fmt.Sprint(p.wantHold)
+	}
+	out.Stat("sess:hold="+holdName, 1)
 	si, err := NewSessionManager(log.NewNopLogger()).NewSession(log.NewNopLogger(), bgp.SessionParameters{
 		PeerAddress: "127.0.0.1", PeerPort: uint16(port), MyASN: myASN, PeerASN: peerASN,
-		RouterID: net.ParseIP("10.0.0.1"), HoldTime: &ht, CurrentNode: "verif"})
+		RouterID: net.ParseIP("10.0.0.1"), HoldTime: htp, CurrentNode: "verif"})
 	if err != nil {
 		t.Fatal(err)
 	}
@@ -621,6 +691,38 @@ func sRunSchedule(t *testing.T, out *vOut, id int, r *rand.Rand, special string)
 	if special != "" {
 		nact = 1
 	}
+	waitFor := func(what func() bool) {
+		for dl := time.Now().Add(3 * time.Second); time.Now().Before(dl); time.Sleep(500 * time.Microsecond) {
+			p.mu.Lock()
+			ok := what()
+			p.mu.Unlock()
+			if ok {
+				return
+			}
+		}
+	}
+	if closeHS {
+		// Close() lands while a connection attempt is in its handshake
+		nact = 0
+		doSet()
+		switch special {
+		case "close-in-handshake:accepted": // TCP accepted, the peer's OPEN is still outstanding
+			waitFor(func() bool { return p.nconn >= 1 })
+		case "close-in-handshake:open-sent": // the peer has just written its OPEN, the session's KEEPALIVE is due
+			select {
+			case <-p.openSent:
+			case <-time.After(3 * time.Second):
+			}
+		case "close-in-handshake:after-flap": // established, flap, Close during the handshake of the reconnect
+			waitFor(func() bool { return p.cur != nil && p.cur.estab })
+			p.mu.Lock()
+			p.def.delayOpen = 120 * time.Millisecond
+			p.mu.Unlock()
+			p.dropIdle()
+			waitFor(func() bool { return p.nconn >= 2 })
+		}
+		out.Stat("sess:close-in-handshake", 1)
+	}
 	if capflip {
 		nact = 0
 		setNonEmpty := func() {
@@ -686,6 +788,18 @@ func sRunSchedule(t *testing.T, out *vOut, id int, r *rand.Rand, special string)
 		time.Sleep(150 * time.Millisecond)
 		closeIt = true
 	}
+	if closeHS {
+		closeIt = true
+	}
+	if closeIt && special == "" && r.Intn(3) == 0 {
+		// Close racing the reconnect after a flap, the peer answering slowly
+		p.mu.Lock()
+		p.def.delayOpen = time.Duration(r.Intn(30)) * time.Millisecond
+		p.mu.Unlock()
+		p.dropIdle()
+		time.Sleep(time.Duration(r.Intn(4000)) * time.Microsecond)
+		out.Stat("sess:close-races-reconnect", 1)
+	}
 
 	final := "stable"
 	if closeIt {
@@ -697,8 +811,28 @@ func sRunSchedule(t *testing.T, out *vOut, id int, r *rand.Rand, special string)
 		if special == "close-in-backoff" {
 			time.Sleep(1200 * time.Millisecond) // past the end of the backoff sleep: no dial may follow
 		}
+		// after Close() returned: no further BGP message, no new connection, and every
+		// TCP connection of the session is seen closed by the peer within a bound
 		time.Sleep(60 * time.Millisecond)
+		open := 0
+		for dl := time.Now().Add(1500 * time.Millisecond); ; time.Sleep(2 * time.Millisecond) {
+			p.mu.Lock()
+			open = 0
+			for _, pc := range p.conns {
+				if !pc.gone {
+					open = pc.id
+				}
+			}
+			p.mu.Unlock()
+			if open == 0 || time.Now().After(dl) {
+				break
+			}
+		}
 		p.mu.Lock()
+		if open != 0 {
+			p.fail("session-connection-open-after-close", fmt.Sprintf("1.5 s after Close() returned the peer still sees connection %d open", open))
+			p.log(fmt.Sprintf("TOpenAfterClose %d", open), fmt.Sprintf("c%d still open", open))
+		}
 		p.log("TFinalClosed", "end (closed)")
 		p.done = true
 		p.mu.Unlock()
@@ -787,8 +921,8 @@ func sRunSchedule(t *testing.T, out *vOut, id int, r *rand.Rand, special string)
 		}
 		out.Fail(sig, f[1], human)
 	}
-	coq := fmt.Sprintf("STrace %d {| my_asn := %d; peer_asn := %d; universe := %s |} [%s]",
-		id, myASN, peerASN, cListN([]int{0, 1, 2, 3, 4, 5}), strings.Join(p.trace, "; "))
+	coq := fmt.Sprintf("STrace %d {| my_asn := %d; peer_asn := %d; universe := %s; cfg_hold := %s |} [%s]",
+		id, myASN, peerASN, cListN([]int{0, 1, 2, 3, 4, 5}), holdCoq, strings.Join(p.trace, "; "))
 	out.Case(id, "schedule:"+final, coq, human)
 }
 
@@ -916,25 +1050,227 @@ func sStepCase(out *vOut, id int, r *rand.Rand) {
 	if pre.hasPend && opn == 0 {
 		out.Stat("step:abort-with-pending", 1)
 	}
-	coq := fmt.Sprintf("SStep %d {| my_asn := 64512; peer_asn := %d; universe := %s |} %s %s %s", id, sPeerASN,
+	coq := fmt.Sprintf("SStep %d {| my_asn := 64512; peer_asn := %d; universe := %s; cfg_hold := None |} %s %s %s", id, sPeerASN,
 		cListN([]int{0, 1, 2, 3, 4, 5}), st(pre.closed, pre.conn, pre.adv, pre.hasPend, pre.pend), op, post)
 	out.Case(id, "step:"+strings.Fields(opH)[0], coq, map[string]any{"trace": []string{
 		fmt.Sprintf("pre: closed=%v conn=%v advertised=%v new(nil=%v)=%v", pre.closed, pre.conn, pre.adv, !pre.hasPend, pre.pend), opH, "post: " + postH}})
 }
 
 // the peer changes its capabilities between two connections of one session
+// ---------------------------------------------------------------- Set() inside the sender's write window
+// The REAL sendUpdates / Set / Close run on a session value whose connection is
+// one end of a net.Pipe (synchronous: a Write blocks until the peer reads).  The
+// peer stops reading in the middle of a flush, 1-2 further Set() calls are made
+// while the sender is blocked in its write, then the peer resumes.  Property:
+// on this same connection the peer's table converges to the LAST requested set.
+// The trace (TAccept/THandshake stand for the hand-made connection) is replayed
+// by Coq like every other schedule.
+func sPipeSchedule(out *vOut, id int, r *rand.Rand) {
+	c1, c2 := net.Pipe()
+	defer c2.Close()
+	ibgp := r.Intn(2) == 0
+	fb := r.Intn(2) == 0
+	myASN, peerASN := uint32(64512), uint32(sPeerASN)
+	if ibgp {
+		peerASN = myASN
+	}
+	ht := 90 * time.Second
+	s := &session{SessionParameters: bgp.SessionParameters{PeerAddress: "127.0.0.1", PeerPort: 1, MyASN: myASN, PeerASN: peerASN, HoldTime: &ht},
+		logger: log.NewNopLogger(), newHoldTime: make(chan bool, 1), peerName: fmt.Sprintf("verif-pipe-%d", id),
+		advertised: map[string]*bgp.Advertisement{}, conn: c1, nextHop: net.IP{127, 0, 0, 1}, peerFBASNSupport: fb}
+	s.cond = sync.NewCond(&s.mu)
+	var mu sync.Mutex
+	var trace, human []string
+	var fails [][2]string
+	lg := func(coq, h string) { mu.Lock(); trace = append(trace, coq); human = append(human, h); mu.Unlock() }
+	lg("TAccept 1", "pipe connection c1")
+	lg(fmt.Sprintf("THandshake 1 %d %s true", peerASN, cBool(fb)), fmt.Sprintf("c1: established by hand, as4=%v", fb))
+	done := make(chan bool)
+	go func() { s.sendUpdates(); close(done) }()
+
+	variants := []int{0, 1, 2}
+	if ibgp {
+		variants = []int{0, 1, 2, 3, 4, 5}
+	}
+	randSet := func(min int) map[int]int {
+		for {
+			m := map[int]int{}
+			for k := 0; k < sNKeys; k++ {
+				if r.Intn(3) > 0 {
+					m[k] = variants[r.Intn(len(variants))]
+				}
+			}
+			if len(m) >= min {
+				return m
+			}
+		}
+	}
+	callSet := func(m map[int]int) {
+		ks := make([]int, 0, len(m))
+		for k := range m {
+			ks = append(ks, k)
+		}
+		sort.Ints(ks)
+		var advs []*bgp.Advertisement
+		var pairs []string
+		for _, k := range ks {
+			a := wAdv{P: sPrefix(k), LP: sAttrs[m[k]].LP, Comms: sAttrs[m[k]].Comms}
+			advs = append(advs, a.real())
+			pairs = append(pairs, cPair(cNi(k), cNi(m[k])))
+		}
+		lg("TSet "+cList(pairs), fmt.Sprintf("Set %v", m))
+		if err := s.Set(advs...); err != nil {
+			mu.Lock()
+			fails = append(fails, [2]string{"session-set-rejected", err.Error()})
+			mu.Unlock()
+		}
+		lg("TSetRet", "Set returned")
+	}
+	table := map[int]int{}
+	nread := 0
+	// readOne reads and applies one message; false when nothing arrives within d
+	readOne := func(d time.Duration) bool {
+		c2.SetReadDeadline(time.Now().Add(d))
+		mb, err := sReadMsg(c2)
+		if err != nil {
+			return false
+		}
+		nread++
+		m, derr := vDecode(mb, fb)
+		if derr != nil || m.Type != 2 {
+			mu.Lock()
+			fails = append(fails, [2]string{"session-message-malformed", fmt.Sprintf("%x: %v", mb, derr)})
+			mu.Unlock()
+			return true
+		}
+		width := sASPathWidth(mb)
+		u := m.Update
+		if len(u.NLRI) > 0 {
+			lp := uint32(0)
+			if u.HasLP {
+				lp = u.LocalPref
+			}
+			v := -1
+			for i, a := range sAttrs {
+				if a.LP != lp || len(a.Comms) != len(u.Comms) {
+					continue
+				}
+				same := true
+				for j, cm := range a.Comms {
+					same = same && u.Comms[j] == cm.A<<16|cm.B
+				}
+				if same {
+					v = i
+					break
+				}
+			}
+			for _, n := range u.NLRI {
+				k := sKeyOf(n)
+				table[k] = v
+				lg(fmt.Sprintf("TUpd 1 %d %d %d", k, v, width), fmt.Sprintf("c1: update k%d=a%d", k, v))
+			}
+		}
+		if len(u.Withdrawn) > 0 {
+			var ks []int
+			for _, n := range u.Withdrawn {
+				k := sKeyOf(n)
+				delete(table, k)
+				ks = append(ks, k)
+			}
+			lg(fmt.Sprintf("TWdr 1 %s", cListN(ks)), fmt.Sprintf("c1: withdraw %v", ks))
+		}
+		return true
+	}
+
+	// 1. a first set; the sender starts its flush and blocks in the first write
+	a := randSet(3)
+	callSet(a)
+	want := a
+	// 2. the peer reads only part of the flush, then stops reading
+	for k := r.Intn(len(a)); k > 0; k-- {
+		readOne(500 * time.Millisecond)
+	}
+	// 3. further Set() calls while the sender sits in its write
+	nmore := 1 + r.Intn(2)
+	setsDone := make(chan bool)
+	var last map[int]int
+	var sets []map[int]int
+	for i := 0; i < nmore; i++ {
+		m := randSet(0)
+		if r.Intn(4) == 0 {
+			m = map[int]int{}
+		}
+		sets = append(sets, m)
+		last = m
+	}
+	go func() {
+		for _, m := range sets {
+			callSet(m)
+		}
+		close(setsDone)
+	}()
+	time.Sleep(time.Duration(1+r.Intn(5)) * time.Millisecond) // the Set is now waiting for / has taken the lock
+	want = last
+	// 4. the peer resumes reading; the connection is left alone
+	quiet := 0
+	for dl := time.Now().Add(4 * time.Second); time.Now().Before(dl) && quiet < 3; {
+		if readOne(50 * time.Millisecond) {
+			quiet = 0
+			continue
+		}
+		select {
+		case <-setsDone:
+			quiet++
+		default:
+		}
+	}
+	<-setsDone
+	mu.Lock()
+	if !sEq(table, want) {
+		fails = append(fails, [2]string{"session-no-convergence", fmt.Sprintf("connection stayed up, sender idle: peer table %v, last Set %v (Set() calls made while the sender was writing)", table, want)})
+	}
+	mu.Unlock()
+	lg(fmt.Sprintf("TFinal 1 %s", sTableStr(table)), fmt.Sprintf("end: table %v", table))
+	s.Close()
+	go io.Copy(io.Discard, c2)
+	select {
+	case <-done:
+	case <-time.After(2 * time.Second):
+		mu.Lock()
+		fails = append(fails, [2]string{"session-sender-does-not-stop", "sendUpdates did not return 2 s after Close()"})
+		mu.Unlock()
+	}
+	out.Stat("sess:set-during-write", 1)
+	out.Stat("sess:set-during-write-messages", nread)
+	hm := map[string]any{"ibgp": ibgp, "peer_as4": fb, "final": "pipe", "trace": human, "special": "set-during-write"}
+	for _, f := range fails {
+		out.Fail(f[0], f[1], hm)
+	}
+	coq := fmt.Sprintf("STrace %d {| my_asn := %d; peer_asn := %d; universe := %s; cfg_hold := %s |} [%s]",
+		id, myASN, peerASN, cListN([]int{0, 1, 2, 3, 4, 5}), cSome(cNi(90)), strings.Join(trace, "; "))
+	out.Case(id, "schedule:pipe", coq, hm)
+}
+
+// the peer changes its capabilities between two connections of one session
 var sCapFlips = []string{"capflip:on-off:ebgp", "capflip:off-on:ebgp", "capflip:on-off:ibgp", "capflip:off-on:ibgp"}
 
-// TestVerifCapFlip is the C16-side check: the bytes a REAL session writes after
-// a reconnect to a peer with other capabilities must decode, with the AS width
-// of the current connection, to the intended routes.
+// what ./check C16 drives through REAL sessions: capability flips and the
+// configured hold time (0 and unset) in the OPEN on the wire
+var sWireFixed = append(append([]string{}, sCapFlips...), "hold:0", "hold:nil")
+
+// Close() landing inside a connection attempt
+var sCloseHS = []string{"close-in-handshake:accepted", "close-in-handshake:open-sent", "close-in-handshake:after-flap"}
+
+// TestVerifCapFlip is the C16-side check: what a REAL session writes (OPEN with
+// the configured values; UPDATEs after a reconnect to a peer with other
+// capabilities) must decode to what was requested.
 func TestVerifCapFlip(t *testing.T) {
 	out := vOpen()
 	defer out.Close()
 	r := vRand()
 	for k := 0; k < vN(2); k++ {
-		for i, sp := range sCapFlips {
-			sRunSchedule(t, out, 1+k*len(sCapFlips)+i, rand.New(rand.NewSource(r.Int63())), sp)
+		for i, sp := range sWireFixed {
+			sRunSchedule(t, out, 1+k*len(sWireFixed)+i, rand.New(rand.NewSource(r.Int63())), sp)
 		}
 	}
 }
@@ -950,24 +1286,41 @@ func TestVerifSess(t *testing.T) {
 	sRunSchedule(t, out, 1, rand.New(rand.NewSource(r.Int63())), "asn65536")
 	par := vEnvInt("VERIF_PAR", 4)
 	var wg sync.WaitGroup
-	wg.Add(1)
-	go func(seed int64) {
-		defer wg.Done()
-		sRunSchedule(t, out, 2, rand.New(rand.NewSource(seed)), "close-in-backoff")
-	}(r.Int63())
-	for i, sp := range sCapFlips {
-		sRunSchedule(t, out, 3+i, rand.New(rand.NewSource(r.Int63())), sp)
+	bg := func(id int, sp string, seed int64) {
+		wg.Add(1)
+		go func() {
+			defer wg.Done()
+			sRunSchedule(t, out, id, rand.New(rand.NewSource(seed)), sp)
+		}()
+	}
+	bg(2, "close-in-backoff", r.Int63())
+	next := 3
+	for _, sp := range sCloseHS {
+		bg(next, sp, r.Int63())
+		next++
+	}
+	for k := 0; k < 4+n/5; k++ {
+		wg.Add(1)
+		go func(id int, seed int64) {
+			defer wg.Done()
+			sPipeSchedule(out, id, rand.New(rand.NewSource(seed)))
+		}(next, r.Int63())
+		next++
+	}
+	for _, sp := range sWireFixed {
+		sRunSchedule(t, out, next, rand.New(rand.NewSource(r.Int63())), sp)
+		next++
 	}
 	sem := make(chan struct{}, par)
 	for i := 0; i < n; i++ {
 		seed := r.Int63()
 		wg.Add(1)
 		sem <- struct{}{}
-		go func(i int, seed int64) {
+		go func(id int, seed int64) {
 			defer wg.Done()
 			defer func() { <-sem }()
-			sRunSchedule(t, out, i+3+len(sCapFlips), rand.New(rand.NewSource(seed)), "")
-		}(i, seed)
+			sRunSchedule(t, out, id, rand.New(rand.NewSource(seed)), "")
+		}(next+i, seed)
 	}
 	wg.Wait()
 }
